@@ -237,7 +237,7 @@ func c19Skip(why string) c19Exp        { return c19Exp{Kind: "skip", Why: why} }
 
 var c19EOFAtom = term.A("end_of_file")
 
-func c19IsLayout(b byte) bool { return b == ' ' || b == '\t' || b == '\n' }
+func c19IsLayout(b byte) bool { return b == ' ' || b == '\t' || b == '\n' || b == '\r' }
 
 // c19SkipLayout skips complete layout text (white space, %-comments, bracketed comments) from i.
 func c19SkipLayout(b []byte, i int) (int, bool) {
@@ -809,7 +809,7 @@ func (c *c19) Generate(cx *Ctx, chunk int) []*Item {
 
 // --- random input sequences
 
-var c19Seps = []string{" ", "\n", "\t", "% c\n", "%\n", " \n", "\n\n"}
+var c19Seps = []string{" ", "\n", "\t", "% c\n", "%\n", " \n", "\n\n", "\r\n", "\r", "\r\n\r\n"}
 var c19MoreLayout = []string{"", "", " ", "/* c */", "/* é */ ", "% 😀 comment\n", "\t", "/* a. b. */", "  ", "/**/"}
 
 func c19RandSource(r *rand.Rand, binary bool) *c19Src {
